@@ -21,6 +21,8 @@ SameObjects == Ok =>
         /\ A.syms[i].name = B.syms[j].name /\ A.syms[i].oid = B.syms[j].oid /\ A.syms[i].cls = B.syms[j].cls
         /\ A.syms[i].nodetype = B.syms[j].nodetype /\ A.syms[i].refs = B.syms[j].refs
         /\ (A.syms[i].status = "-" \/ V2Status(A.syms[i].status) = B.syms[j].status)
+\* a DEFVAL survives in both texts, with the same value (and is absent where none was written)
+SameDefaults == Ok => (A.defaults = B.defaults /\ \A k \in DOMAIN sc.objs : (A.defaults[k] # "-") = sc.objs[k].defval)
 TypeMap == (Ok /\ T.pysnmp) => \A k \in DOMAIN sc.objs :
    /\ A.pyclass[k] = V2Class(sc.objs[k].type) /\ B.pyclass[k] = V2Class(sc.objs[k].type)
 AccessIsMaxAccess == Ok => \A k \in DOMAIN sc.objs : (A.access[k] = sc.objs[k].access /\ B.access[k] = sc.objs[k].access)
@@ -34,7 +36,7 @@ ImportsRewritten == (T.kind = "row") =>
    /\ T.newmod \notin SmiV1Mods
    /\ T.shipped => T.exported
 ImportsInPair == Ok => \A i \in DOMAIN A.imports : A.imports[i] \notin SmiV1Mods
-Checks == << <<"BothCompile", BothCompile>>, <<"SameObjects", SameObjects>>, <<"TypeMap", TypeMap>>, <<"AccessIsMaxAccess", AccessIsMaxAccess>>,
+Checks == << <<"BothCompile", BothCompile>>, <<"SameObjects", SameObjects>>, <<"SameDefaults", SameDefaults>>, <<"TypeMap", TypeMap>>, <<"AccessIsMaxAccess", AccessIsMaxAccess>>,
              <<"TrapIsNotification", TrapIsNotification>>, <<"ImportsRewritten", ImportsRewritten>>, <<"ImportsInPair", ImportsInPair>> >>
 Report == PrintT(ToJson([id |-> T.id, failed |-> {Checks[i][1] : i \in {j \in DOMAIN Checks : ~Checks[j][2]}}]))
 ====
